@@ -1,9 +1,10 @@
 #!/bin/sh
 # Build the framework from files on disk only (offline): Lean library + model driver, harness binaries.
 set -e
-cd /verif/lean
+here=$(cd "$(dirname "$0")" && pwd)
+cd "$here/lean"
 lake build
-cd /verif/harness
+cd "$here/harness"
 [ -f Cargo.lock ] || cp /repo/Cargo.lock Cargo.lock
 CARGO_NET_OFFLINE=true cargo build --release --offline -p vh-proto
 if [ -d vh-client/src/bin ] && ls vh-client/src/bin/*.rs >/dev/null 2>&1; then
